@@ -175,3 +175,26 @@ pub proof fn lemma_delete_all(a: &Allocator, d: Seq<Entity>)
         assert(f.raised.contains(i) == (s.raised.contains(i) && !in_prefix(d, d.len(), i)));
     }
 }
+
+// C09 (reduced): "executed so far ++ still waiting" only ever grows at its end, so whatever was executed or queued is
+// executed exactly once, in queue order
+pub open spec fn pending(w: &World) -> Seq<int> { w.lazy_log() + w.lazy_queue() }
+//@props C09
+pub proof fn lemma_pending_step(log: Seq<int>, q: Seq<int>, q2: Seq<int>)
+    requires q.len() > 0, q.drop_first().is_prefix_of(q2),
+    ensures (log + q).is_prefix_of(log.push(q[0]) + q2),
+{
+    let a = log + q;
+    let b = log.push(q[0]) + q2;
+    assert(a.len() <= b.len());
+    assert forall|i: int| 0 <= i < a.len() implies a[i] == b[i] by {
+        if i < log.len() { } else if i == log.len() { assert(a[i] == q[0]); } else {
+            let j = i - log.len();
+            assert(a[i] == q[j]);
+            assert(q[j] == q.drop_first()[j - 1]);
+            assert(q.drop_first()[j - 1] == q2[j - 1]);
+            assert(b[i] == q2[i - log.len() - 1]);
+        }
+    }
+    assert(a =~= b.subrange(0, a.len() as int));
+}
